@@ -313,8 +313,17 @@ func (w *algWorld) optimizer(n, opt int) func() {
 	maxIt := 40
 	switch w.alg {
 	case "bfgs":
+		args := []interface{}{bfgs.Epsilon{Value: 1e-6}, bfgs.MaxIterations{Value: maxIt}}
+		if t.Bool(1, 2) {
+			// the caller's initial approximation of the Hessian (not the identity)
+			// is an input like x0: bfgs has no in-situ option
+			b0 := ad.NewDenseFloat64Matrix(spd(t, n), n, n)
+			w.keep("Hessian.Value", b0, nil)
+			args = append(args, bfgs.Hessian{Value: b0})
+			w.c.Count("bfgs:caller-supplied-hessian")
+		}
 		return func() {
-			bfgs.Run(func(x ad.ConstVector) (ad.MagicScalar, error) { return f(x) }, x0, bfgs.Epsilon{Value: 1e-6}, bfgs.MaxIterations{Value: maxIt})
+			bfgs.Run(func(x ad.ConstVector) (ad.MagicScalar, error) { return f(x) }, x0, args...)
 		}
 	case "rprop":
 		return func() {
